@@ -59,25 +59,40 @@ structure Cfg where
   resource : String
   traceType : String
 
-def key (s : String) : List Nat := mpStr (strBytes s)
+/-- field names of `DatadogSpan` as UTF-8 bytes (ASCII); literal byte lists so that they reduce
+    in the kernel — that they spell the serde field names is checked byte-for-byte against the
+    real reporter on every run -/
+def kName : List Nat := [110, 97, 109, 101]
+def kService : List Nat := [115, 101, 114, 118, 105, 99, 101]
+def kType : List Nat := [116, 121, 112, 101]
+def kResource : List Nat := [114, 101, 115, 111, 117, 114, 99, 101]
+def kStart : List Nat := [115, 116, 97, 114, 116]
+def kDuration : List Nat := [100, 117, 114, 97, 116, 105, 111, 110]
+def kMeta : List Nat := [109, 101, 116, 97]
+def kErrorCode : List Nat := [101, 114, 114, 111, 114, 95, 99, 111, 100, 101]
+def kSpanId : List Nat := [115, 112, 97, 110, 95, 105, 100]
+def kTraceId : List Nat := [116, 114, 97, 99, 101, 95, 105, 100]
+def kParentId : List Nat := [112, 97, 114, 101, 110, 116, 95, 105, 100]
+
+def key (b : List Nat) : List Nat := mpStr b
 
 /-- one `DatadogSpan` as a msgpack map (field order = struct declaration order; `meta` is
     skipped when the record has no properties) -/
 def encSpan (c : Cfg) (r : Record) : List Nat :=
   let m := metaOf r.props
   mpMapLen (if r.props.isEmpty then 10 else 11)
-  ++ key "name" ++ mpStr (strBytes r.name)
-  ++ key "service" ++ mpStr (strBytes c.service)
-  ++ key "type" ++ mpStr (strBytes c.traceType)
-  ++ key "resource" ++ mpStr (strBytes c.resource)
-  ++ key "start" ++ mpSint r.beginNs
-  ++ key "duration" ++ mpSint r.durationNs
+  ++ key kName ++ mpStr (strBytes r.name)
+  ++ key kService ++ mpStr (strBytes c.service)
+  ++ key kType ++ mpStr (strBytes c.traceType)
+  ++ key kResource ++ mpStr (strBytes c.resource)
+  ++ key kStart ++ mpSint r.beginNs
+  ++ key kDuration ++ mpSint r.durationNs
   ++ (if r.props.isEmpty then [] else
-        key "meta" ++ mpMapLen m.length ++ m.flatMap fun kv => mpStr (strBytes kv.1) ++ mpStr (strBytes kv.2))
-  ++ key "error_code" ++ mpSint 0
-  ++ key "span_id" ++ mpUint r.spanId
-  ++ key "trace_id" ++ mpUint (r.traceId % 2 ^ 64)
-  ++ key "parent_id" ++ mpUint r.parentId
+        key kMeta ++ mpMapLen m.length ++ m.flatMap fun kv => mpStr (strBytes kv.1) ++ mpStr (strBytes kv.2))
+  ++ key kErrorCode ++ mpSint 0
+  ++ key kSpanId ++ mpUint r.spanId
+  ++ key kTraceId ++ mpUint (r.traceId % 2 ^ 64)
+  ++ key kParentId ++ mpUint r.parentId
 
 /-- body of the HTTP request: `[0x91]` + the array of spans (v0.4: one trace holding all) -/
 def encodeBody (c : Cfg) (rs : List Record) : List Nat :=
